@@ -140,6 +140,10 @@ def main():
             sh("git -C %s checkout -q -- evidence 2>/dev/null" % VERIF)
     finally:
         rmwt(wt)
+        # the per-worktree build directories of the checks (build/<id>-<hash of the worktree path>)
+        import glob
+        for d in glob.glob(os.path.join(VERIF, "build", "C[0-9][0-9]-??????")):
+            shutil.rmtree(d, ignore_errors=True)
     dst = os.path.join(VERIF, "seeded", sid)
     os.makedirs(dst, exist_ok=True)
     for fn in os.listdir(src):
